@@ -48,7 +48,11 @@ func c17Tokens() []c17Tok {
 		// a comment of one kind whose text begins with the marker of another kind: the text does not start with TODO
 		{Text: "//# TODO: not-a-todo", Kind: "line"},
 		{Text: "/* # FIXME(al): not-a-todo */", Kind: "block"},
-		{Text: "## TODO twice", Kind: "hash", Expect: "opt"},
+		// a hash comment whose text begins with another marker character: the text does not start with TODO
+		{Text: "## TODO twice", Kind: "hash"},
+		{Text: "##FIXME twice", Kind: "hash"},
+		{Text: "#/ todo slash", Kind: "hash"},
+		{Text: "#*FIXME star", Kind: "hash"},
 		{Text: "// TODOS plural", Kind: "line", Expect: "opt"},
 		{Text: "// see TODO later", Kind: "line"},
 		{Text: "// é TODO after non-ascii", Kind: "line"},
